@@ -652,6 +652,27 @@ fn brace_getgroup(s: &str, depth: i32) -> Option<(Vec<String>, String)> {
     None
 }
 
+/// The word without its quoted parts. The tokenizer keeps a quote that starts
+/// in the middle of a word, and the text up to its closing quote, in the word
+/// (`export E='p{1,2}q'`): braces in there are data for the brace passes.
+fn outside_quotes(word: &str) -> String {
+    let chars: Vec<char> = word.chars().collect();
+    let mut result = String::new();
+    let mut i = 0;
+    while i < chars.len() {
+        let c = chars[i];
+        if c == '\'' || c == '"' {
+            if let Some(n) = chars[i + 1..].iter().position(|x| *x == c) {
+                i += n + 2;
+                continue;
+            }
+        }
+        result.push(c);
+        i += 1;
+    }
+    result
+}
+
 /// How many words at the start of the line are `NAME=value` assignments:
 /// their values are data for the brace passes (`A={a,b}` assigns `{a,b}`).
 fn count_leading_assignments(tokens: &types::Tokens) -> usize {
@@ -663,7 +684,7 @@ fn expand_brace(tokens: &mut types::Tokens) {
     let mut buff = Vec::new();
     let assignments = count_leading_assignments(tokens);
     for (sep, token) in tokens.iter() {
-        if !sep.is_empty() || !need_expand_brace(token) || idx < assignments {
+        if !sep.is_empty() || !need_expand_brace(&outside_quotes(token)) || idx < assignments {
             idx += 1;
             continue;
         }
@@ -701,7 +722,7 @@ fn expand_brace_range(tokens: &mut types::Tokens) {
     let mut buff: Vec<(usize, Vec<String>)> = Vec::new();
     let assignments = count_leading_assignments(tokens);
     for (sep, token) in tokens.iter() {
-        if !sep.is_empty() || !re.is_match(token) || idx < assignments {
+        if !sep.is_empty() || !re.is_match(&outside_quotes(token)) || idx < assignments {
             idx += 1;
             continue;
         }
